@@ -119,4 +119,79 @@ theorem strideUp_sim (r : Nat) (z : α) (p0 : π) (ins : List (In (α × π))) :
     ins (strideUp r z p0).init
   exact h
 
+/-! ### Shifter (PipelinedActor, latency 2) -/
+
+/-- What the sink token looks like inside the pipeline (data truncated to `dw` bits, `shift` dropped). -/
+def shNorm (dw : Nat) (t : Tok (Nat × Nat)) : Tok Nat := { data := t.data.1 % 2 ^ dw, first := t.first, last := t.last }
+
+def ShState.inflight (s : ShState) : List (Tok Nat) :=
+  (if s.v2 then [{ data := s.rlo, first := s.f2, last := s.l2 }] else []) ++
+  (if s.v1 then [{ data := s.rhi, first := s.f1, last := s.l1 }] else [])
+
+/-- `q` is token `p` seen through the shifter's window: same flags, data = `r[sh : sh+dw]` where the low half of
+    `r` is `p.data` and the high half whatever followed on the sink. -/
+def ShiftOf (dw : Nat) (p q : Tok Nat) : Prop :=
+  q.first = p.first ∧ q.last = p.last ∧ ∃ hi sh, q.data = shOut dw p.data hi sh
+
+def shList (dw : Nat) : List (Tok Nat) → List (Tok Nat) → Prop
+  | [], [] => True
+  | p :: ps, q :: qs => ShiftOf dw p q ∧ shList dw ps qs
+  | _, _ => False
+
+theorem shList_snoc (dw : Nat) : ∀ (ps qs : List (Tok Nat)) (p q : Tok Nat),
+    shList dw ps qs → ShiftOf dw p q → shList dw (ps ++ [p]) (qs ++ [q])
+  | [], [], p, q, _, h => ⟨h, trivial⟩
+  | [], _ :: _, _, _, h, _ => h.elim
+  | _ :: _, [], _, _, h, _ => h.elim
+  | _ :: ps, _ :: qs, p, q, h, hq => ⟨h.1, shList_snoc dw ps qs p q h.2 hq⟩
+
+theorem shList_length (dw : Nat) : ∀ (ps qs : List (Tok Nat)), shList dw ps qs → ps.length = qs.length
+  | [], [], _ => rfl
+  | [], _ :: _, h => h.elim
+  | _ :: _, [], h => h.elim
+  | _ :: ps, _ :: qs, h => by simp [shList_length dw ps qs h.2]
+
+def shRel (dw : Nat) (s : ShState) (a : List (Tok (Nat × Nat))) (d : List (Tok Nat)) : Prop :=
+  ∃ dpre, a.map (shNorm dw) = dpre ++ s.inflight ∧ shList dw dpre d
+
+theorem shifter_step (dw : Nat) (s : ShState) (a : List (Tok (Nat × Nat))) (d : List (Tok Nat))
+    (i : In (Nat × Nat)) (h : shRel dw s a d) :
+    shRel dw ((shifter dw).step s i) (a ++ (shifter dw).accNow s i) (d ++ (shifter dw).delNow s i) := by
+  obtain ⟨v1, v2, f1, f2, l1, l2, rlo, rhi⟩ := s
+  obtain ⟨iv, ⟨⟨td, tsh⟩, tf, tl⟩, ir⟩ := i
+  obtain ⟨dpre, h1, h2⟩ := h
+  by_cases hdel : v2 = true ∧ ir = true
+  · obtain ⟨hv2, hir⟩ := hdel
+    subst hv2 hir
+    refine ⟨dpre ++ [{ data := rlo, first := f2, last := l2 }], ?_, ?_⟩
+    · cases v1 <;> cases iv <;>
+        simp_all [shifter, Elem.step, Elem.accNow, Elem.delNow, Elem.out, ShState.inflight, shNorm]
+    · have : (shifter dw).delNow ⟨v1, true, f1, f2, l1, l2, rlo, rhi⟩ ⟨iv, ⟨(td, tsh), tf, tl⟩, true⟩ =
+          [{ data := shOut dw rlo rhi tsh, first := f2, last := l2 }] := rfl
+      rw [this]
+      exact shList_snoc dw _ _ _ _ h2 ⟨rfl, rfl, rhi, tsh, rfl⟩
+  · refine ⟨dpre, ?_, ?_⟩
+    · cases v1 <;> cases v2 <;> cases iv <;> cases ir <;>
+        simp_all [shifter, Elem.step, Elem.accNow, Elem.delNow, Elem.out, ShState.inflight, shNorm]
+    · have : (shifter dw).delNow ⟨v1, v2, f1, f2, l1, l2, rlo, rhi⟩ ⟨iv, ⟨(td, tsh), tf, tl⟩, ir⟩ = [] := by
+        cases v2 <;> cases ir <;> simp_all [shifter, Elem.delNow, Elem.out]
+      rw [this, List.append_nil]
+      exact h2
+
+/-- With `shift = 0` the window is the token itself. -/
+theorem shOut_zero (dw lo hi : Nat) (hdw : 0 < dw) (hlo : lo < 2 ^ dw) : shOut dw lo hi 0 = lo := by
+  simp [shOut, hdw, Nat.add_mul_mod_self_right, Nat.mod_eq_of_lt hlo]
+
+/-- For any `shift < dw`, bits `[0, dw-shift)` of the output are bits `[shift, dw)` of the token. -/
+theorem shOut_low (dw lo hi sh : Nat) (hsh : sh < dw) (hlo : lo < 2 ^ dw) :
+    shOut dw lo hi sh % 2 ^ (dw - sh) = lo / 2 ^ sh := by
+  have hpow : 2 ^ dw = 2 ^ (dw - sh) * 2 ^ sh := by rw [← Nat.pow_add]; congr 1; omega
+  have hdvd : 2 ^ (dw - sh) ∣ 2 ^ dw := ⟨2 ^ sh, hpow⟩
+  have hdiv : (lo + hi * 2 ^ dw) / 2 ^ sh = lo / 2 ^ sh + hi * 2 ^ (dw - sh) := by
+    rw [hpow, ← Nat.mul_assoc, Nat.add_mul_div_right _ _ (Nat.two_pow_pos sh)]
+  have hsmall : lo / 2 ^ sh < 2 ^ (dw - sh) := by
+    rw [Nat.div_lt_iff_lt_mul (Nat.two_pow_pos sh), ← hpow]; exact hlo
+  simp only [shOut, hsh, if_true]
+  rw [Nat.mod_mod_of_dvd _ hdvd, hdiv, Nat.add_mul_mod_self_right, Nat.mod_eq_of_lt hsmall]
+
 end Litex.Stream
